@@ -113,6 +113,10 @@ type Interp struct {
 	pendingConc       []Value
 	strVecs           map[string][]Term
 	pools             map[*Value][]Value
+	raceOn            bool
+	raceActor         int
+	raceCells         map[interface{}]*raceCell
+	onces             map[*Value]bool
 	blobStrs          map[int]Term
 	blobByID          map[int]*Blob
 	hints             []string
@@ -453,7 +457,7 @@ func fullName(fn *ssa.Function) string {
 func (in *Interp) callFn(fn *ssa.Function, args []Value, env []Value) Value {
 	name := fullName(fn)
 	if fn.Synthetic == "package initializer" {
-		if fn.Pkg != nil && in.L.interpretInit(fn.Pkg) && !in.initDone[fn.Pkg] {
+		if fn.Pkg != nil && in.L.eagerInit(fn.Pkg) && !in.initDone[fn.Pkg] {
 			in.runInit(fn.Pkg)
 		}
 		return nil
@@ -938,10 +942,24 @@ func (in *Interp) binop(op token.Token, xt types.Type, a, b Value) Value {
 		switch op {
 		case token.ADD, token.SUB, token.MUL:
 			return intBin(op.String(), x, y)
-		case token.QUO:
-			// Go truncates, SMT div floors: identical for non-negative operands, which is all the ghost clock uses
-			in.assume(tAnd(intCmp(">=", x, mkInt(0)), intCmp(">", y, mkInt(0))))
-			return symInt("(div " + x.smt() + " " + y.smt() + ")")
+		case token.QUO, token.REM:
+			// Go truncates towards zero, SMT div floors: spell the truncated quotient out over absolute values
+			if in.branch(tEq(y, mkInt(0))) {
+				panic(goPanic{msg: "runtime error: integer divide by zero"})
+			}
+			var q Term
+			if x.C && y.C {
+				q = mkInt(int64(x.U) / int64(y.U))
+			} else {
+				ax := "(abs " + x.smt() + ")"
+				ay := "(abs " + y.smt() + ")"
+				mag := "(div " + ax + " " + ay + ")"
+				q = symInt("(ite (= (>= " + x.smt() + " 0) (> " + y.smt() + " 0)) " + mag + " (- " + mag + "))")
+			}
+			if op == token.QUO {
+				return q
+			}
+			return intBin("-", x, intBin("*", y, q))
 		case token.LSS, token.LEQ, token.GTR, token.GEQ:
 			return intCmp(op.String(), x, y)
 		}
@@ -983,7 +1001,11 @@ func (in *Interp) convert(src, dst types.Type, v Value) Value {
 			case sb.Info()&types.IsInteger != 0 && db.Info()&types.IsInteger != 0:
 				if t := v.(Term); t.S == SInt {
 					if intWidth(db) != 64 {
-						panic(abort("narrowing conversion of a mathematical-integer value"))
+						if t.C {
+							return mkBV(intWidth(db), t.U)
+						}
+						// Go truncates to the low bits; int2bv is exactly that for values inside int64
+						return symBV(intWidth(db), fmt.Sprintf("((_ int2bv %d) %s)", intWidth(db), t.E))
 					}
 					return t
 				}
@@ -1571,6 +1593,7 @@ func (in *Interp) builtin(fr *frame, b *ssa.Builtin, c *ssa.CallCommon, args []V
 // ---------- ghost checks on memory ----------
 
 func (in *Interp) onLoad(p *Value) {
+	in.raceNote(p, false)
 	if in.guardsOff {
 		return
 	}
@@ -1582,6 +1605,7 @@ func (in *Interp) onLoad(p *Value) {
 }
 
 func (in *Interp) onStore(p *Value) {
+	in.raceNote(p, true)
 	if in.guardsOff {
 		if why, ok := in.frozen[p]; ok {
 			in.ghostViolation("frozen", "store into frozen memory: "+why)
@@ -1599,6 +1623,7 @@ func (in *Interp) onStore(p *Value) {
 }
 
 func (in *Interp) onMapRead(m *MapObj) {
+	in.raceNote(m, false)
 	m.ReadCnt++
 	if m.Guard != nil && !in.guardsOff && !in.heldLocks[m.Guard] {
 		in.ghostViolation("lockset", "read of a guarded map without holding its mutex")
@@ -1606,6 +1631,7 @@ func (in *Interp) onMapRead(m *MapObj) {
 }
 
 func (in *Interp) onMapWrite(m *MapObj) {
+	in.raceNote(m, true)
 	m.WriteCnt++
 	if m.Guard != nil && !in.guardsOff && !in.heldLocks[m.Guard] {
 		in.ghostViolation("lockset", "write to a guarded map without holding its mutex")
